@@ -139,7 +139,8 @@ theorem C40_out_window (s : State) (st : St) (h : H) (r : Nat) (q : List Cmd) (s
 theorem C40_replenish (s : State) (st : St) (h : H) (n : Nat) (q : List Cmd) (s' : State) (o : List Out)
     (hq : h.queue = .read n :: q) (hn : n ≠ 0) (hb : st.hasBody = true) (ha : st.alive = true) (hbuf : st.buf > 0)
     (hm : microH s st h = some (s', o)) :
-    o = [.read h.id (min n st.buf), .wu 0 (min n st.buf)] ++ (if st.isOpen then [.wu h.id (min n st.buf)] else []) ∧
+    o = [.read h.id (min n st.buf), .wu 0 (min n st.buf)] ++ (if st.isOpen then [.wu h.id (min n st.buf)] else []) ++
+        (if n - min n st.buf = 0 then [.rend h.id 0] else []) ∧
       min n st.buf ≤ st.buf := by
   unfold microH at hm
   simp only [hq, hn, hb, ha, Bool.not_true, Bool.false_eq_true, or_self, if_false, hbuf, if_true] at hm
@@ -156,6 +157,38 @@ theorem C40_replenish_during_goaway (s : State) (st : St) (h : H) (n : Nat) (q :
   constructor
   · simp
   · intro ho; simp [ho]
+
+/-- **The request body's Read contract**: a read command of a handler ends with io.EOF only if the client has ended
+    the body (FIN seen) or the request has none, and with an error only if the stream has been closed. -/
+theorem C40_read_end (s : State) (st : St) (h : H) (n : Nat) (q : List Cmd) (s' : State) (o : List Out)
+    (hq : h.queue = .read n :: q) (hm : microH s st h = some (s', o)) :
+    (Out.rend h.id 1 ∈ o → st.eof = true ∨ st.hasBody = false) ∧ (Out.rend h.id 2 ∈ o → st.alive = false) := by
+  unfold microH at hm
+  simp only [hq] at hm
+  split at hm
+  · rename_i hc
+    simp only [Option.some.injEq, Prod.mk.injEq] at hm
+    obtain ⟨_, rfl⟩ := hm
+    by_cases h0 : n = 0
+    · simp [h0]
+    · by_cases hb : st.hasBody = true
+      · have ha : st.alive = false := by
+          rcases hc with hc | hc | hc
+          · exact absurd hc h0
+          · simp [hb] at hc
+          · simpa using hc
+        simp [h0, hb, ha]
+      · simp [h0, hb]
+  · split at hm
+    · simp only [Option.some.injEq, Prod.mk.injEq] at hm
+      obtain ⟨_, rfl⟩ := hm
+      constructor <;> intro hmem <;> (split at hmem <;> split at hmem <;> simp at hmem)
+    · split at hm
+      · rename_i he
+        simp only [Option.some.injEq, Prod.mk.injEq] at hm
+        obtain ⟨_, rfl⟩ := hm
+        simp [he]
+      · cases hm
 
 /-- a graceful shutdown sends GOAWAY(last stream id, OK) once and leaves every window and stream as it is. -/
 theorem C40_graceful (s : State) (hg : s.inGoAway = false) :
